@@ -88,10 +88,18 @@ func parse(aliasTag string, out any, data map[string][]string, files ...map[stri
 }
 
 // Parse data into the struct with gofiber/schema
-func parseToStruct(aliasTag string, out any, data map[string][]string, files ...map[string][]*multipart.FileHeader) error {
+func parseToStruct(aliasTag string, out any, data map[string][]string, files ...map[string][]*multipart.FileHeader) (err error) {
 	// Get decoder from pool
 	schemaDecoder := decoderPoolMap[aliasTag].Get().(*schema.Decoder) //nolint:errcheck,forcetypeassert // not needed
 	defer decoderPoolMap[aliasTag].Put(schemaDecoder)
+
+	// The decoder indexes slices of structs with the numbers the client wrote into the keys ("items[-1][name]=x"
+	// makes it index out of range): input it cannot handle fails the binding, it must not take the server down.
+	defer func() {
+		if r := recover(); r != nil {
+			err = fmt.Errorf("bind: %v", r)
+		}
+	}()
 
 	// Set alias tag
 	schemaDecoder.SetAliasTag(aliasTag)
